@@ -16,11 +16,33 @@ func init() {
 		streamHistories(c, HistCfg{Ops: 40, QueriesPer: 1, Indexes: true, Dumps: true, Malformed: true}, "ids: inserts with generated/supplied/duplicate/malformed ids, saves, replacements, updates rewriting _id")
 	}
 	streams["C13"] = func(c *Ctx) {
+		{
+			dr := StartDriver(c.DriverBin)
+			ok := true
+			for _, be := range backendsAll {
+				ok = ok && catalogInterleavings(c, dr, be)
+			}
+			dr.Close()
+			if !ok {
+				return
+			}
+		}
 		streamHistories(c, HistCfg{Ops: 40, QueriesPer: 1, Indexes: true, Dumps: true, Malformed: true, ManyColls: true}, "catalog: create/drop/list over prefix-related and unicode collection names sharing ids")
 	}
 	streams["C14"] = func(c *Ctx) {
 		if !indexCatalogSequences(c) {
 			return
+		}
+		{
+			dr := StartDriver(c.DriverBin)
+			ok := true
+			for _, be := range backendsAll {
+				ok = ok && catalogInterleavings(c, dr, be)
+			}
+			dr.Close()
+			if !ok {
+				return
+			}
 		}
 		streamHistories(c, HistCfg{Ops: 40, QueriesPer: 2, Indexes: true, Dumps: true, IndexHeavy: true}, "index catalog: create/drop of indexes on prefix pairs (x, xy) and dotted paths (n, n.a) interleaved with writes")
 	}
@@ -897,10 +919,30 @@ func streamC09(c *Ctx) {
 			for ci := range idxSets {
 				cn := fmt.Sprintf("es%d", ci)
 				for si, srt := range sorts {
-					for v := 0; v < 3; v++ {
+					for v := 0; v < 7; v++ {
 						q := J{"coll": hx(cn), "sort": srt}
 						if v == 1 {
 							q["crit"] = J{"cmp": []interface{}{"ge", hx("a"), J{"lit": encValue(int64(2))}}}
+						}
+						// criteria an index could serve by several scans (a list of points, a disjunction): stopping inside one
+						// of them must stop the whole read; also without any sort
+						if v >= 3 {
+							if si >= 3 {
+								continue
+							}
+							switch v {
+							case 3:
+								q["crit"] = J{"in": []interface{}{hx("a"), []interface{}{J{"lit": encValue(int64(1))}, J{"lit": encValue(int64(3))}}}}
+							case 4:
+								q["crit"] = J{"in": []interface{}{hx("a"), []interface{}{J{"lit": encValue(int64(3))}, J{"lit": encValue(int64(2))}, J{"lit": encValue(int64(1))}}}}
+								delete(q, "sort")
+							case 5:
+								q["crit"] = J{"or": []interface{}{J{"cmp": []interface{}{"eq", hx("a"), J{"lit": encValue(int64(1))}}}, J{"cmp": []interface{}{"eq", hx("a"), J{"lit": encValue(int64(3))}}}}}
+								delete(q, "sort")
+							case 6:
+								q["crit"] = J{"in": []interface{}{hx("b"), []interface{}{J{"lit": encValue(int64(3))}, J{"lit": encValue(int64(5))}, J{"lit": encValue(int64(0))}}}}
+								delete(q, "sort")
+							}
 						}
 						if v == 2 {
 							q["skip"] = 1
